@@ -28,9 +28,59 @@ UNITS = {
     },
     'C04': {
         'functions': ['penman.layout:_process_role', 'penman.layout:_process_atomic',
-                      'penman.layout:_interpret_node'],
+                      'penman.model:Model.is_role_inverted', 'penman.model:Model.invert',
+                      'penman.model:Model.deinvert', 'penman.models.noop:NoOpModel.deinvert'],
+        'lemmas': ['deinvert_laws'],
+        'level': 'other',
+        'explanation': 'Proved: the string-aware split of alignment suffixes off roles and atoms (_process_role, '
+                       '_process_atomic: a "~" inside a quoted string is content, the pivot is after the last quote), '
+                       'and the model side of deinversion (inverted iff undefined and ending in -of; deinvert swaps '
+                       'source and target once; never under the no-op model).  That _interpret_node assembles these '
+                       'into the documented depth-first reading is decided by the bounded stand-in against the '
+                       'executable Reading spec (its obligations are generated but do not discharge within the budget).',
+    },
+    'C18': {
+        'functions': ['penman.constant:quote', 'penman.constant:evaluate'],
+        'regex': ['lexer', 'json'],
         'lemmas': [],
         'level': 'other',
+        'explanation': 'Proved modulo the assumed contract of json (T4): quote(None) is the empty string constant and '
+                       'quote(x) quotes str(x); evaluate is total up to ConstantError, returns None only for empty/None, '
+                       'int/float only for JSON number syntax, never a bool or container; regex obligations: the output '
+                       'language of json.dumps is inside the STRING token language, contains no blank but the space, and '
+                       'STRING is prefix-free, so the lexer reads a quoted constant as exactly one STRING token.  '
+                       'evaluate(quote(s)) == s (the json round trip) and type() are decided by the bounded stand-in.',
+    },
+    'C14': {
+        'functions': ['penman.layout:get_pushed_variable'],
+        'lemmas': [],
+        'level': 'other',
+        'explanation': 'Proved: get_pushed_variable answers the variable of the first Push marker of a triple and None '
+                       'for a triple without one, and never raises (also for triples without a marker entry).  Node '
+                       'contexts and appears_inverted against the text are decided by the bounded stand-in.',
+    },
+    'C11': {
+        'functions': ['penman.model:Model.is_role_reifiable', 'penman.model:Model.is_concept_dereifiable',
+                      'penman.model:Model.reify', 'penman.model:Model.dereify',
+                      'penman.transform:_reified_markers', 'penman.transform:_edge_markers'],
+        'lemmas': [],
+        'level': 'other',
+        'explanation': 'Proved for every model: Model.reify returns the three triples around a node variable that is '
+                       'fresh with respect to the given variables; Model.dereify picks the first fitting table entry and '
+                       'orients the edge by it (errors exactly as documented); marker migration (_reified_markers, '
+                       '_edge_markers: a role alignment becomes the alignment of the new concept with the same indices '
+                       'and prefix, the rest then Push then POPs go to the outgoing triple).  The graph-level clauses '
+                       '(mutual inverse down to the text, never collapsing the top / referenced nodes) are decided by '
+                       'the bounded stand-in.',
+    },
+    'C12': {
+        'functions': ['penman.transform:_reified_markers', 'penman.transform:_edge_markers',
+                      'penman.transform:_attr_markers', 'penman.model:Model.reify', 'penman.model:Model.dereify'],
+        'lemmas': [],
+        'level': 'other',
+        'explanation': 'Proved: the marker-splitting helpers and the model-level reify/dereify used by every '
+                       'transformation.  Well-formedness, same top and faithful serialisation of the transformed graphs '
+                       'are decided by the bounded stand-in.',
     },
     'C15': {
         'functions': [
